@@ -8,6 +8,7 @@
 import EmitModel.Model.Text
 import EmitModel.Lemmas.HexId
 import EmitModel.Lemmas.TraceparentText
+import EmitModel.Lemmas.TimestampText
 
 namespace EmitModel.C15
 open EmitModel.Text
@@ -235,5 +236,54 @@ example : TraceparentWF ⟨some 5, none, 255⟩ := by
   constructor <;> intro x h <;> simp at h <;> subst h <;> decide
 
 end TraceparentHeader
+
+/-! ## Timestamps: calendar conversion, RFC 3339 formatter and (post-D10-fix) strict parser -/
+section Timestamps
+open EmitModel.Timestamp
+
+/-- Calendar parts convert both ways for every instant from 1970-01-01T00:00:00Z to
+    9999-12-31T23:59:59.999999999Z (`t` in nanoseconds): `to_parts` does not panic (its month loop stays inside the
+    table), lands in range (month 1–12, day 1–31, hour ≤ 23, minute/second ≤ 59, year 1970–9999) and `from_parts`
+    returns exactly the instant. -/
+theorem calendar_roundtrip (t : Nat) (ht : t ≤ MAX_NS) :
+    ∃ p, toPartsO t = .ok p ∧ toParts t = p ∧ InRange p ∧ fromParts p = .ok (some t) := by
+  obtain ⟨p, h1, h2, _, h4⟩ := calendar_roundtrip_lemma t ht
+  exact ⟨p, h1, toParts_eq t p h1, h2, h4⟩
+
+/-- Formatting then parsing returns the instant truncated to the `k` printed sub-second digits, for every
+    instant in range and every precision `k ∈ 0..9` (`{:.k}`); the formatter does not panic. -/
+theorem ts_roundtrip (t k : Nat) (ht : t ≤ MAX_NS) (hk : k ≤ 9) :
+    fmtRfc3339O (some k) t = .ok (fmtRfc3339 (some k) t) ∧
+    parseRfc3339 (fmtRfc3339 (some k) t) = .ok (t - t % 10 ^ (9 - k)) :=
+  ts_roundtrip_lemma t k ht hk
+
+/-- In particular the default `Display` (no precision = 9 digits) and any precision ≥ 9 round-trip exactly, and so
+    does every precision at which the instant is representable. -/
+theorem ts_roundtrip_exact (t : Nat) (ht : t ≤ MAX_NS) :
+    parseRfc3339 (fmtRfc3339 none t) = .ok t ∧
+    (∀ k, 9 ≤ k → parseRfc3339 (fmtRfc3339 (some k) t) = .ok t) ∧
+    (∀ k, k ≤ 9 → t % 10 ^ (9 - k) = 0 → parseRfc3339 (fmtRfc3339 (some k) t) = .ok t) := by
+  have h9 := (ts_roundtrip t 9 ht (Nat.le_refl 9)).2
+  simp only [Nat.sub_self, Nat.pow_zero, Nat.mod_one, Nat.sub_zero] at h9
+  refine ⟨?_, ?_, ?_⟩
+  · have : fmtRfc3339 none t = fmtRfc3339 (some 9) t := by simp [fmtRfc3339, fmtParts]
+    rw [this, h9]
+  · intro k hk
+    have : fmtRfc3339 (some k) t = fmtRfc3339 (some 9) t := by
+      cases k with
+      | zero => omega
+      | succ k =>
+        have : min 9 (k + 1) = 9 := by omega
+        simp [fmtRfc3339, fmtParts, this]
+    rw [this, h9]
+  · intro k hk hz
+    have := (ts_roundtrip t k ht hk).2
+    rwa [hz, Nat.sub_zero] at this
+
+example : fmtRfc3339 (some 0) 0 = ascii "1970-01-01T00:00:00Z" := by decide +kernel
+example : parseRfc3339 (ascii "1970-01-01T00:00:00Z") = .ok 0 := by decide +kernel
+example : fmtRfc3339 none 1691961703000017532 = ascii "2023-08-13T21:21:43.000017532Z" := by decide +kernel
+
+end Timestamps
 
 end EmitModel.C15
